@@ -326,7 +326,7 @@ func runC16(ctx *core.Ctx) {
 		}
 		cs.Flush(lc)
 	})
-	ctx.Floor("reader_faults_near_buffer_boundary", 5000)
+	ctx.Floor("reader_faults_near_buffer_boundary", 2000)
 	ctx.MinNontrivial(int64(ctx.N(100000, 1000000)))
 	for _, c := range []string{"comment", "end-tag", "selfclosing-tag", "start-tag", "space-or-text-space", "text"} {
 		ctx.Floor("faulted_write:"+c, 1000)
